@@ -72,23 +72,6 @@ Fixpoint oracle_ops (now : Z) (ws rs : list ent) (ops : list (sop * obs)) : bool
 Definition C30_oracle_ok (c : C30_case) : bool :=
   let '(a, b) := oracle_ops 1000000000 [] [] (c30_ops c) in a && b.
 
-(* ---- known class ---- *)
-(* what the model predicts the observations to be (with the observed schedule k) *)
-Definition strip (l : list (Z * res Z)) : list (Z * Z) :=
-  map (fun p => (fst p, match snd p with Ok d => d | _ => -1 end)) l.
-Fixpoint predict_sim (s : sstate) (ops : list (sop * obs)) : list (sop * obs) :=
-  match ops with
-  | [] => []
-  | (o, ob) :: r =>
-      let '(s1, ds, rep) := step s o (length (o_delays ob)) in
-      (o, mkObs (strip ds) (wsigs (ss_writers s) (ss_writers s1)) (rsigs (ss_readers s) (ss_readers s1)) rep)
-        :: predict_sim s1 r
-  end.
-
-(* class 1 (finding C30-reader-no-rearm): the writers' observed counts are right and the
-   model of check_missed_reader_deadline (count at every loop iteration, nothing re-arms,
-   no timed wake once the ownership entry is dropped) predicts a wrong reader count *)
-Definition C30_known (c : C30_case) : N :=
-  let '(wobs, _) := oracle_ops 1000000000 [] [] (c30_ops c) in
-  let '(_, rpred) := oracle_ops 1000000000 [] [] (predict_sim (init_state (c30_interval c)) (c30_ops c)) in
-  if wobs && negb rpred then 1%N else 0%N.
+(* no known classes (C30-reader-no-rearm was fixed by 10574fc: the reader re-arms a missed
+   instance by one period and times the next check from the same timestamp) *)
+Definition C30_known (c : C30_case) : N := 0%N.
